@@ -747,7 +747,7 @@ package state
 //@ ensures[only-this-node-removed] forall k string :: T_nodes(k) == old(T_nodes(k)) || (T_nodes(k) == nil && old(T_nodes(k)) == old(nodeAt(nodeName, peerName)))
 //@ ensures[only-its-services-removed] forall k string :: T_services(k) == old(T_services(k)) || (T_services(k) == nil && old(serviceOfNode(T_services(k), nodeName, peerName)))
 //@ ensures[no-session-created] forall id string :: old(T_sessions(id)) == nil ==> T_sessions(id) == nil
-//@ modifies T.nodes, T.services, T.checks, T.coordinates, T.index, T.sessions, T.kvs, T.tombstones, T.session_checks, T.prepared-queries, map:s.lockDelay.delay, T.gateway-services, T.service-virtual-ips, T.free-virtual-ips
+//@ modifies T.nodes, T.services, T.checks, T.coordinates, T.index, T.sessions, T.kvs, T.tombstones, T.session_checks, T.prepared-queries, map:s.lockDelay.delay, T.gateway-services, T.service-virtual-ips, T.free-virtual-ips, T.mesh-topology
 //@ loop 1 invariant[pos] 0 <= itPos(services) && itPos(services) <= itLen(services)
 //@ loop 1 invariant[cursor] (service != nil ==> itPos(services) >= 1 && service == itElem(services, itPos(services)-1)) && (service == nil ==> itPos(services) == itLen(services))
 //@ loop 1 invariant[collected] len(deleteServices) == ite(service != nil, itPos(services) - 1, itPos(services)) && forall j int :: 0 <= j && j < len(deleteServices) ==> deleteServices[j] == itElem(services, j).(*structs.ServiceNode)
@@ -773,10 +773,45 @@ package state
 // ---- C07: the derived views (mesh topology, gateway links, kind-service-names, virtual IPs) are NOT under contract.
 // Their maintenance functions are used through ASSUMED frames: they touch only their own derived tables and the
 // index table, never the nodes, services, checks or session tables (listed under trusted_contracts in the evidence).
+// ---- C07 / C05: the upstream/downstream topology rows. A row stored in memdb is shared with every reader and with
+// the committed state an aborted transaction falls back to: it must be copied before it is changed. cleanupMeshTopology
+// is VERIFIED against that rule: it writes only the mesh-topology and index tables, every row object that existed
+// at entry keeps its content (including the content of its Refs map), and only rows whose downstream is this proxy's
+// destination are removed or replaced.
+//@ pure topologyRowsImmutable() bool = forall r *upstreamDownstream :: !fresh(r) ==> r.Upstream == old(r.Upstream) && r.Downstream == old(r.Downstream) && eq(r.Refs, old(r.Refs)) && r.ModifyIndex == old(r.ModifyIndex) && r.CreateIndex == old(r.CreateIndex)
+//@ pure refMapsImmutable() bool = forall m map[string]struct{}, k string :: !fresh(m) ==> len(m) == old(len(m)) && (has(m, k) <==> old(has(m, k)))
+//@ file catalog_schema.deepcopy.go
+//@ func upstreamDownstream.DeepCopy
+//@ props C07 C05
+//@ results out
+//@ requires o != nil
+//@ ensures[fresh-copy] fresh(out) && out.Upstream == o.Upstream && out.Downstream == o.Downstream && out.ModifyIndex == o.ModifyIndex && out.CreateIndex == o.CreateIndex
+//@ ensures[own-ref-map] forall k string :: o.Refs != nil ==> fresh(out.Refs) && (has(out.Refs, k) <==> has(o.Refs, k))
+//@ ensures[nil-stays-nil] o.Refs == nil ==> out.Refs == nil
+//@ ensures[existing-untouched] topologyRowsImmutable() && refMapsImmutable()
+//@ modifies nothing
+//@ loop 1 invariant[existing-maps-untouched] refMapsImmutable()
+//@ loop 1 invariant[copied-so-far] forall k string :: fresh(cp.Refs) && cp.Refs != nil && (has(cp.Refs, k) <==> range1_visited[k])
+//@ loop 1 invariant[visited-are-source-keys] forall k string :: range1_visited[k] ==> has(o.Refs, k)
+//@ file catalog.go
 //@ func cleanupMeshTopology
-//@ trusted
+//@ props C07 C05
 //@ results err
-//@ modifies T.index
+//@ requires service != nil
+//@ ensures[stored-rows-never-changed-in-place] topologyRowsImmutable() && refMapsImmutable()
+//@ ensures[only-rows-of-this-destination-touched] forall k string :: T_mesh_topology(k) == old(T_mesh_topology(k)) || (old(T_mesh_topology(k)) != nil && strLower(old(T_mesh_topology(k).Downstream.Name)) == strLower(service.ServiceProxy.DestinationServiceName))
+//@ ensures[replacements-are-fresh-copies] forall k string :: T_mesh_topology(k) == old(T_mesh_topology(k)) || T_mesh_topology(k) == nil || fresh(T_mesh_topology(k))
+//@ ensures[not-a-local-proxy-noop] service.PeerName != "" || service.ServiceKind != structs.ServiceKindConnectProxy ==> err == nil && forall k string :: T_mesh_topology(k) == old(T_mesh_topology(k))
+//@ modifies T.mesh-topology, T.index
+//@ loop 1 invariant[pos] 0 <= itPos(iter) && itPos(iter) <= itLen(iter)
+//@ loop 1 invariant[cursor] (raw != nil ==> itPos(iter) >= 1 && raw == itElem(iter, itPos(iter)-1)) && (raw == nil ==> itPos(iter) == itLen(iter))
+//@ loop 1 invariant[collected] len(mappings) == ite(raw != nil, itPos(iter) - 1, itPos(iter)) && forall j int :: 0 <= j && j < len(mappings) ==> mappings[j] == itElem(iter, j).(*upstreamDownstream)
+//@ loop 2 invariant[listed-exist] forall j int :: 0 <= j && j < len(mappings) ==> mappings[j] != nil
+//@ loop 2 invariant[listed-are-stored-rows] forall j int :: 0 <= j && j < len(mappings) ==> old(T_mesh_topology(mappings[j])) == mappings[j]
+//@ loop 2 invariant[listed-are-rows-of-this-destination] forall j int :: 0 <= j && j < len(mappings) ==> strLower(old(mappings[j].Downstream.Name)) == strLower(service.ServiceProxy.DestinationServiceName)
+//@ loop 2 invariant[stored-rows-never-changed-in-place] topologyRowsImmutable() && refMapsImmutable()
+//@ loop 2 invariant[only-rows-of-this-destination-touched] forall k string :: T_mesh_topology(k) == old(T_mesh_topology(k)) || (old(T_mesh_topology(k)) != nil && strLower(old(T_mesh_topology(k).Downstream.Name)) == strLower(service.ServiceProxy.DestinationServiceName))
+//@ loop 2 invariant[replacements-are-fresh-copies] forall k string :: T_mesh_topology(k) == old(T_mesh_topology(k)) || T_mesh_topology(k) == nil || fresh(T_mesh_topology(k))
 // ---- C07: freeing a service's virtual IP (derived view service-virtual-ips / free-virtual-ips), VERIFIED.
 // Taken from the property ("a virtual IP advertised by any catalog instance equals its service's current
 // assignment"): the assignment is kept while anything can still advertise it - a remaining instance of the service,
@@ -822,7 +857,7 @@ package state
 //@ func cleanupGatewayWildcards
 //@ trusted
 //@ results err
-//@ modifies T.index, T.gateway-services
+//@ modifies T.index, T.gateway-services, T.mesh-topology
 //@ func catalogServiceMaxIndex
 //@ trusted
 //@ results ch, entry, err
@@ -842,7 +877,7 @@ package state
 //@ ensures[nodes-untouched] forall k string :: T_nodes(k) == old(T_nodes(k))
 //@ ensures[no-session-created] forall id string :: old(T_sessions(id)) == nil ==> T_sessions(id) == nil
 //@ ensures[sessions-only-removed] sessionsOnlyRemoved()
-//@ modifies T.services, T.checks, T.index, T.sessions, T.kvs, T.tombstones, T.session_checks, T.prepared-queries, map:s.lockDelay.delay, T.gateway-services, T.service-virtual-ips, T.free-virtual-ips
+//@ modifies T.services, T.checks, T.index, T.sessions, T.kvs, T.tombstones, T.session_checks, T.prepared-queries, map:s.lockDelay.delay, T.gateway-services, T.service-virtual-ips, T.free-virtual-ips, T.mesh-topology
 //@ loop 1 invariant[pos] 0 <= itPos(checks) && itPos(checks) <= itLen(checks)
 //@ loop 1 invariant[cursor] (check != nil ==> itPos(checks) >= 1 && check == itElem(checks, itPos(checks)-1)) && (check == nil ==> itPos(checks) == itLen(checks))
 //@ loop 1 invariant[collected] len(deleteChecks) == ite(check != nil, itPos(checks) - 1, itPos(checks)) && forall j int :: 0 <= j && j < len(deleteChecks) ==> deleteChecks[j] == itElem(checks, j).(*structs.HealthCheck)
@@ -856,11 +891,11 @@ package state
 //@ func checkGatewayWildcardsAndUpdate
 //@ trusted
 //@ results err
-//@ modifies T.index, T.gateway-services
+//@ modifies T.index, T.gateway-services, T.mesh-topology
 //@ func checkGatewayAndUpdate
 //@ trusted
 //@ results err
-//@ modifies T.index, T.gateway-services
+//@ modifies T.index, T.gateway-services, T.mesh-topology
 //@ func upsertKindServiceName
 //@ trusted
 //@ results err
@@ -868,7 +903,7 @@ package state
 //@ func updateMeshTopology
 //@ trusted
 //@ results err
-//@ modifies T.index
+//@ modifies T.index, T.mesh-topology
 //@ func assignServiceVirtualIP
 //@ trusted
 //@ opt record assignServiceVirtualIP
@@ -890,7 +925,7 @@ package state
 //@ ensures[nodes-and-checks-untouched] (forall k string :: T_nodes(k) == old(T_nodes(k))) && (forall k string :: T_checks(k) == old(T_checks(k)))
 //@ ensures[advertised-virtual-ip-is-the-assigned-one] rerr == nil && svc.Kind != structs.ServiceKindTerminatingGateway && called("assignServiceVirtualIP") && !old(called("assignServiceVirtualIP")) ==> has(svc.TaggedAddresses, structs.TaggedAddressVirtualIP) && svc.TaggedAddresses[structs.TaggedAddressVirtualIP].Address == lastStr("assignServiceVirtualIP")
 //@ ensures[C06-writer-bumps-services-index] rerr == nil && serviceAt(node, svc.ID, svc.PeerName) != old(serviceAt(node, svc.ID, svc.PeerName)) ==> idxVal("services") >= serviceAt(node, svc.ID, svc.PeerName).ModifyIndex && idxVal("nodes") >= serviceAt(node, svc.ID, svc.PeerName).ModifyIndex
-//@ modifies T.services, T.index, svc.TaggedAddresses, T.gateway-services, T.service-virtual-ips, T.free-virtual-ips
+//@ modifies T.services, T.index, svc.TaggedAddresses, T.gateway-services, T.service-virtual-ips, T.free-virtual-ips, T.mesh-topology
 
 //@ pure checkAt(node string, id string, peer string) *structs.HealthCheck = T_checks(NodeCheckQuery{Node: node, CheckID: id, PeerName: peer})
 //@ pure nodeAt(node string, peer string) *structs.Node = T_nodes(Query{Value: node, PeerName: peer})
@@ -953,11 +988,11 @@ package state
 //@ func ensureConfigEntryTxn
 //@ trusted
 //@ results rerr
-//@ modifies T.config-entries, T.index, T.gateway-services, T.service-virtual-ips, T.free-virtual-ips, T.services
+//@ modifies T.config-entries, T.index, T.gateway-services, T.service-virtual-ips, T.free-virtual-ips, T.services, T.mesh-topology
 //@ func deleteConfigEntryTxn
 //@ trusted
 //@ results rerr
-//@ modifies T.config-entries, T.index, T.gateway-services, T.service-virtual-ips, T.free-virtual-ips
+//@ modifies T.config-entries, T.index, T.gateway-services, T.service-virtual-ips, T.free-virtual-ips, T.mesh-topology
 
 //@ pure configAt(c structs.ConfigEntry) structs.ConfigEntry = T_config_entries(configentry.KindName{Kind: c.GetKind(), Name: c.GetName()})
 
